@@ -16,13 +16,23 @@ LEVEL = "exploration"
 TECHNIQUE = (
     "runtime monitoring: post-condition oracles on every bind / replace_params / free_symbols / sub_symbols / "
     "custom-matrix-factory call (substitution defined independently as simultaneous xreplace) plus driver-level "
-    "relational checks (two-step vs one-step binding, circuit matrix before/after)"
+    "relational checks (two-step vs one-step binding, circuit matrix before/after, repeated binds of the same objects "
+    "judged against the parameters they were built with)"
 )
 RULE = (
     "seeded generator by input class (gates / wrapped / custom / non-gate operations / circuits / chained maps / "
-    "two-step binding / refusing wrappers) x symbol map kind (empty, partial, total, superfluous, same-name symbol "
-    "with other assumptions; values int, float, sympy numbers, fresh symbols, expressions); non-trivial = some "
-    "parameter is a non-atomic expression or the map is partial; distinct = distinct canonical case strings"
+    "two-step binding / refusing wrappers / siblings / rebind) x symbol map kind (empty, partial, total, superfluous, "
+    "same-name symbol with other assumptions; values int, float, sympy numbers, fresh symbols, expressions); "
+    "siblings = circuits whose operations are drawn from small per-circuit pools of innermost gates x wrapper shapes x "
+    "parameter values (rv.gen.siblings), so that DIFFERENT gates coincide in name, parameter tuple, text, == / hash "
+    "(c-RX(t) / c-RY(t) / cc-RX(t) / c-RX(t)-dagger, X.controlled / Z.controlled, RX(1) / RX(1.0), same-name symbols "
+    "with other assumptions, two custom definitions of one name, one gate object on several operations), run through "
+    "the circuit / two-step / chained flows; rebind = history class: the same circuit / operation / gate bound "
+    "repeatedly (other values under the same keys, the first map again, equal values of another numeric type, one "
+    "dict changed in place between calls), its gate objects shared with a second circuit, the circuit extended by a "
+    "sibling; non-trivial = some parameter is a non-atomic expression or the map is partial (siblings: at least two "
+    "different gates collide under a non-unique key; rebind: the map touches a symbol of the object); distinct = "
+    "distinct canonical case strings"
 )
 ASSUMPTIONS = [
     "substitution is defined by the oracle as SIMULTANEOUS structural replacement (sympy xreplace) of the map's keys",
@@ -31,6 +41,13 @@ ASSUMPTIONS = [
     "circuit matrices: to_unitary() on all-symbolic / all-numeric circuits of width <= 3, reference embedding of the "
     "per-gate matrices for mixed ones (known finding K5 makes their to_unitary() unobtainable)",
     "map values are Python int/float or sympy objects (numpy scalars cannot be ingested by sympy 1.9: environment)",
+    "a bound operation must carry ITS OWN gate: same arity, total number of controls, innermost gate (name, matrix "
+    "factory) and dagger parity (the last only when the innermost gate is not declared hermitian); the wrapper "
+    "nesting itself may be normalised by the library",
+    "circuit-matrix tolerance 1e-9 times the product of the 2-norms of the gate matrices (1 for unitary gates; custom "
+    "gates need not be unitary and the rounding error of a matrix product grows with that product)",
+    "binding returns a new object: a circuit / gate that is bound repeatedly is judged each time against the "
+    "parameters it was built with",
 ]
 DECIDING = ["sub_symbols", "get_free_symbols", "custom-factory", "MatrixFactoryGate.bind", "ControlledGate.bind",
             "Dagger.bind", "Power.bind", "Exponential.bind", "GateOperation.bind", "MultiPhaseOperation.bind",
